@@ -78,8 +78,11 @@ class SQLStore(_Base):
     def dump(self):
         return self.impl.dump()
 
-    def gc(self, now):
-        return self.impl.gc(now)
+    def gc(self, now, collector=None):
+        return self.impl.gc(now, collector)
+
+    def new_collector(self):
+        return self.impl.new_collector()
 
     def delete(self, idhex):
         self.run(self.storage.delete_event(idhex))
@@ -147,13 +150,16 @@ class KVStore(_Base):
     def ids(self):
         return {k[2:] for k in self.dump() if k.startswith("00") and len(k) == 66}
 
-    def gc(self, now):
+    def new_collector(self):
+        return self.kv.KVGarbageCollector(self.storage)
+
+    def gc(self, now, collector=None):
         kv = self.kv
         orig = kv.time
         kv.time = lambda: now
 
         async def go():
-            gc = kv.KVGarbageCollector(self.storage)
+            gc = collector or kv.KVGarbageCollector(self.storage)
             with self.env.begin() as conn:
                 return await gc.collect(conn)
         try:
